@@ -200,7 +200,20 @@ def run_check(prop: str, tier: str) -> int:
     triage_deadline = time.monotonic() + float(os.environ.get("VERIF_TRIAGE_S", tcfg.get("triage_s", 120)))
     reported_classes = []
     untriaged = 0
+    def _signature_only_entry(v):
+        for e in open_entries:
+            if not e.get("neutraliser") and rule_matches(e["rules"], v["rule"]) and signature_matches(e.get("signature", {}), v["features"]):
+                return e
+        return None
+
     for fail in batch["failures"]:
+        # verdicts of open findings that are attributed on their signature alone (the run applies the
+        # neutraliser itself, e.g. C20's severing step) need no re-execution
+        pre = [_signature_only_entry(v) for v in fail["verdicts"]]
+        if all(e is not None for e in pre):
+            for e in pre:
+                suppressed[e["id"]] += 1
+            continue
         if time.monotonic() > triage_deadline:
             untriaged += 1
             continue
